@@ -74,6 +74,24 @@ func VerifC09ConsumerSend() {
 	}
 	vh.Assert(len(e.ch.sent) == wantSent, "C09.consumer.sends-prefix-up-to-first-slash-packet")
 	vh.Assert(len(rest) == n-firstSlash, "C09.consumer.sent-non-slash-packets-removed-rest-kept")
+	// acknowledgements of the vsc-matured packets sent ahead of the slash packet
+	// arrive first (ordered channel): they change neither the queue nor the slash record
+	maturedAck := vh.ConcretizeInt(vh.Int("matured_ack"), 0, 2)
+	for i := 0; i < firstSlash; i++ {
+		res := ccv.V1Result
+		if maturedAck == 1 {
+			res = ccv.SlashPacketHandledResult
+		} else if maturedAck == 2 {
+			res = ccv.SlashPacketBouncedResult
+		}
+		recBefore, foundBefore := e.k.GetSlashRecord(e.ctx)
+		pkt := channeltypes.Packet{SourceChannel: "channel-0", SourcePort: ccv.ConsumerPortID, Data: e.ch.sent[i].data}
+		aerr := e.k.OnAcknowledgementPacket(e.ctx, pkt, channeltypes.NewResultAcknowledgement(res))
+		vh.Assert(aerr == nil, "C09.consumer.ack-no-error")
+		recAfter, foundAfter := e.k.GetSlashRecord(e.ctx)
+		vh.Assert(len(e.k.GetPendingPackets(e.ctx)) == len(rest), "C09.consumer.vsc-matured-ack-leaves-the-queue-alone")
+		vh.Assert(foundBefore == foundAfter && recBefore.WaitingOnReply == recAfter.WaitingOnReply && recBefore.SendTime.Equal(recAfter.SendTime), "C09.consumer.vsc-matured-ack-leaves-the-slash-record-alone")
+	}
 	if firstSlash < n {
 		vh.Assert(rest[0].Type == ccv.SlashPacket, "C09.consumer.slash-packet-stays-at-head-until-acknowledged")
 		rec, found := e.k.GetSlashRecord(e.ctx)
